@@ -111,36 +111,28 @@ theorem C18_setnStr_wellformed (o : Opt) (s : Option Bytes) (i : Nat) (fail : Op
         · exact hw _ (by simp)
         · exact ih n (fun y hy => hw y (by simp [hy])) hx
   unfold setnStrF
-  split
-  · exact hwf
-  · rw [hdd]
-    have happ : ∀ f c, cellsOk (.mk o.info f o.subs (o.vals ++ [.str none]) c) = true :=
-      fun f c => cellsOk_append o (.str none) f c hwf (by simp [hty])
-    by_cases hneed : i ≥ o.vals.length
-    · simp only [hneed, if_true]
-      unfold addvalF
-      by_cases h0 : (fail == some 0) = true
-      · simp [h0, hwf]
-      · by_cases h1 : (fail == some 1) = true
-        · simp [h0, h1, hwf]
-        · simp only [h0, h1, Bool.false_eq_true, if_false, Bool.not_true]
-          have hty' : (Opt.mk o.info { o.flags with modified := true } o.subs (o.vals ++ [.str none]) o.comment).ty = .str := by
-            simpa [Opt.ty, Opt.info] using hty
-          cases s with
-          | none => exact set_ok _ _ _ _ hty' (happ _ _)
-          | some b =>
-            simp only
-            split
-            · exact happ _ _
-            · exact set_ok _ _ _ _ hty' (happ _ _)
-    · simp only [hneed, if_false, Bool.not_true, Bool.false_eq_true]
-      cases s with
-      | none => exact set_ok o _ _ _ hty hwf
-      | some b =>
-        simp only
-        split
-        · exact hwf
-        · exact set_ok o _ _ _ hty hwf
+  simp only []
+  by_cases hA : ((if s.isSome = true then 1 else 0) == 1 && fail == some 0) = true
+  · simp only [hA, if_true]; exact hwf
+  · simp only [hA, Bool.false_eq_true, if_false]
+    by_cases hB : (i != 0 && !o.flags.list && !o.flags.multi) = true
+    · simp only [hB, if_true]; exact hwf
+    · simp only [hB, Bool.false_eq_true, if_false, hdd]
+      have happ : ∀ f c, cellsOk (.mk o.info f o.subs (o.vals ++ [.str s]) c) = true :=
+        fun f c => cellsOk_append o (.str s) f c hwf (by simp [hty])
+      by_cases hneed : i ≥ o.vals.length
+      · simp only [hneed, decide_true, if_true]
+        unfold addvalF
+        by_cases h0 : (shiftFail fail (if s.isSome = true then 1 else 0) == some 0) = true
+        · simp only [h0, if_true, Bool.not_false, if_true]; exact hwf
+        · by_cases h1 : (shiftFail fail (if s.isSome = true then 1 else 0) == some 1) = true
+          · simp only [h0, h1, Bool.false_eq_true, if_false, if_true, Bool.not_false]; exact hwf
+          · simp only [h0, h1, Bool.false_eq_true, if_false, Bool.not_true]
+            have hty' : (Opt.mk o.info { o.flags with modified := true } o.subs (o.vals ++ [.str s]) o.comment).ty = .str := by
+              simpa [Opt.ty, Opt.info] using hty
+            exact set_ok _ _ _ _ hty' (happ _ _)
+      · simp only [hneed, decide_false, Bool.false_eq_true, if_false, Bool.not_true]
+        exact set_ok o _ _ _ hty hwf
 
 
 /-- **C18 (`cfg_setopt` from text, plain options).** For EVERY position `k` of the failing request:
@@ -213,34 +205,40 @@ theorem setnNumF_ok (o : Opt) (v : Val) (i : Nat) (fail : Option Nat) (h : (setn
 
 theorem setnStrF_ok (o : Opt) (s : Option Bytes) (i : Nat) (fail : Option Nat) (h : (setnStrF o s i fail).ok = true) :
     (setnStrF o s i fail).opt = (setnStrF o s i none).opt := by
+  have hsn : ∀ n, shiftFail none n = none := fun _ => rfl
   unfold setnStrF at h ⊢
-  by_cases hi : (i != 0 && !o.flags.list && !o.flags.multi) = true
-  · simp [hi] at h
-  · simp only [hi, Bool.false_eq_true, if_false] at h ⊢
-    by_cases hn : i ≥ (dropDefaults o).1.vals.length
-    · simp only [hn, decide_true, if_true] at h ⊢
-      by_cases hok : (addvalF (dropDefaults o).1 (.str none) fail).ok = true
-      · rw [addvalF_ok _ _ _ hok] at h ⊢
-        have hnone : (addvalF (dropDefaults o).1 (.str none) none).ok = true := by simp [addvalF]
-        simp only [hnone, Bool.not_true, Bool.false_eq_true, if_false] at h ⊢
-        cases s with
-        | none => rfl
-        | some b =>
-          simp only [] at h ⊢
-          by_cases hs : (shiftFail fail (addvalF (dropDefaults o).1 (Val.str none) none).allocs == some 0) = true
-          · simp [hs] at h
-          · have hn0 : ∀ n, (shiftFail none n == some 0) = false := by intro n; simp [shiftFail]
-            simp only [hs, hn0, Bool.false_eq_true, if_false]
-      · simp [hok] at h
-    · simp only [hn, decide_false, Bool.false_eq_true, if_false, Bool.not_true] at h ⊢
-      cases s with
-      | none => rfl
-      | some b =>
-        simp only [] at h ⊢
-        by_cases hs : (shiftFail fail 0 == some 0) = true
-        · simp [hs] at h
-        · have hn0 : ∀ n, (shiftFail none n == some 0) = false := by intro n; simp [shiftFail]
-          simp only [hs, hn0, Bool.false_eq_true, if_false]
+  simp only [] at h ⊢
+  by_cases hA : ((if s.isSome = true then 1 else 0) == 1 && fail == some 0) = true
+  · simp [hA] at h
+  · have hA0 : ((if s.isSome = true then 1 else 0) == 1 && (none : Option Nat) == some 0) = false := by simp
+    simp only [hA, hA0, Bool.false_eq_true, if_false] at h ⊢
+    by_cases hB : (i != 0 && !o.flags.list && !o.flags.multi) = true
+    · simp [hB] at h
+    · simp only [hB, Bool.false_eq_true, if_false, hsn] at h ⊢
+      by_cases hn : i ≥ (dropDefaults o).1.vals.length
+      · simp only [hn, decide_true, if_true] at h ⊢
+        by_cases hok : (addvalF (dropDefaults o).1 (.str s) (shiftFail fail (if s.isSome = true then 1 else 0))).ok = true
+        · rw [addvalF_ok _ _ _ hok]
+        · simp [hok] at h
+      · simp only [hn, decide_false, Bool.false_eq_true, if_false]
+
+theorem setnStrF_none_ok (o : Opt) (s : Option Bytes) (i : Nat) (h : (i != 0 && !o.flags.list && !o.flags.multi) = false) :
+    (setnStrF o s i none).ok = true := by
+  unfold setnStrF
+  have hA0 : ((if s.isSome = true then 1 else 0) == 1 && (none : Option Nat) == some 0) = false := by simp
+  simp only [hA0, h, Bool.false_eq_true, if_false]
+  by_cases hn : i ≥ (dropDefaults o).1.vals.length <;> simp [hn, addvalF, shiftFail]
+
+theorem setnStrF_ok_idx (o : Opt) (s : Option Bytes) (i : Nat) (fail : Option Nat) (h : (setnStrF o s i fail).ok = true) :
+    (i != 0 && !o.flags.list && !o.flags.multi) = false := by
+  unfold setnStrF at h
+  simp only [] at h
+  by_cases hA : ((if s.isSome = true then 1 else 0) == 1 && fail == some 0) = true
+  · simp [hA] at h
+  · simp only [hA, Bool.false_eq_true, if_false] at h
+    by_cases hi : (i != 0 && !o.flags.list && !o.flags.multi) = true
+    · simp [hi] at h
+    · simpa using hi
 
 theorem addOneF_ok (o : Opt) (v : Val) (fail : Option Nat) (h : (addOneF o v fail).ok = true) :
     (addOneF o v fail).opt = (addOneF o v none).opt := by
@@ -252,13 +250,6 @@ theorem setnNumF_none_ok (o : Opt) (v : Val) (i : Nat) (h : (i != 0 && !o.flags.
   simp only [h, Bool.false_eq_true, if_false]
   by_cases hn : i ≥ (dropDefaults o).1.vals.length <;> simp [hn, addvalF]
 
-theorem setnStrF_none_ok (o : Opt) (s : Option Bytes) (i : Nat) (h : (i != 0 && !o.flags.list && !o.flags.multi) = false) :
-    (setnStrF o s i none).ok = true := by
-  have hsn : ∀ n, (shiftFail none n == some 0) = false := by intro n; simp [shiftFail]
-  unfold setnStrF
-  simp only [h, Bool.false_eq_true, if_false]
-  by_cases hn : i ≥ (dropDefaults o).1.vals.length <;> cases s <;> simp [hn, addvalF, hsn]
-
 theorem setnNumF_ok_idx (o : Opt) (v : Val) (i : Nat) (fail : Option Nat) (h : (setnNumF o v i fail).ok = true) :
     (i != 0 && !o.flags.list && !o.flags.multi) = false := by
   unfold setnNumF at h
@@ -266,14 +257,6 @@ theorem setnNumF_ok_idx (o : Opt) (v : Val) (i : Nat) (fail : Option Nat) (h : (
   · simp [hi] at h
   · simpa using hi
 
-theorem setnStrF_ok_idx (o : Opt) (s : Option Bytes) (i : Nat) (fail : Option Nat) (h : (setnStrF o s i fail).ok = true) :
-    (i != 0 && !o.flags.list && !o.flags.multi) = false := by
-  unfold setnStrF at h
-  by_cases hi : (i != 0 && !o.flags.list && !o.flags.multi) = true
-  · simp [hi] at h
-  · simpa using hi
-
-/-- a store that succeeds under some fault schedule succeeds without faults -/
 theorem addOneF_ok_none (o : Opt) (v : Val) (fail : Option Nat) (h : (addOneF o v fail).ok = true) : (addOneF o v none).ok = true := by
   cases v <;> first
     | exact setnNumF_none_ok _ _ _ (setnNumF_ok_idx _ _ _ _ h)
